@@ -8,6 +8,9 @@ CLAIMED = {
  "C08": ("exploration", "property-based testing (proptest) against u128/bigint reference + exhaustive enumeration of all moduli < 2^7",
          "Generated-input search: every public word-level modular primitive and multi-word helper is compared with native u128 / in-house big-integer arithmetic on boundary-biased random operands (quick: 0.8M cases) and exhaustively for all moduli below 128 with all operand pairs. Exact-value oracle, so any disagreement is a violation; this is the property PBT decides best.",
          "Trusted: Rust u128 arithmetic, the self-tested BigU oracle, documented operand domains re-derived from doc comments and callers.", "DESIGN.md §6 C08"),
+ "C09": ("exploration", "property-based testing (proptest) against naive evaluation/convolution + exhaustive unit-vector enumeration",
+         "Generated-input search: the forward transform of every unit vector X^j (exhaustive, N up to 2048 quick / 8192 thorough, four prime sizes incl. 61-bit) must equal the powers of the independently computed minimal primitive 2N-th root in bit-reversed order; random vectors are checked by Horner evaluation, round trips, lazy-range bounds with congruence, and the convolution theorem against a naive O(N^2) negacyclic product. Because the map is linear the unit-vector enumeration pins the whole matrix for those (N, q).",
+         "Trusted: u128 modular arithmetic and refmath (deterministic Miller-Rabin, root search). Lazy ranges are those stated in the code comments.", "DESIGN.md §6 C09"),
 }
 
 PENDING_REASON = "check not built yet in this session (design in DESIGN.md §6); will be claimed once its harness module exists"
